@@ -126,6 +126,20 @@ Finish ==
   /\ Done(TRUE, hi)
   /\ UNCHANGED <<lo, hi, probes, cap, env>>
 
+(* Abstract search step: ANY probe strictly inside the interval is a sound step of the      *)
+(* search (the optimistic probe and the clamped midpoint are optimisations of the choice).  *)
+(* The trace specification accepts exactly these steps, so that it decides the property and  *)
+(* not the probing strategy; SearchRefines below states that the documented algorithm only   *)
+(* takes such steps.                                                                         *)
+SoundProbeP(g, o) ==
+  /\ pc \in {"optimistic", "bisect"}
+  /\ lo < g /\ g < hi
+  /\ Probe(g)
+  /\ CASE o = "fatal" -> Done(FALSE, 0) /\ UNCHANGED <<lo, hi>>
+       [] o = "fail"  -> lo' = g /\ pc' = "bisect" /\ UNCHANGED <<hi, res>>
+       [] o = "ok"    -> hi' = g /\ pc' = "bisect" /\ UNCHANGED <<lo, res>>
+  /\ UNCHANGED <<cap, env>>
+
 Next == Start \/ Transfer \/ AtCap \/ OptimisticProbe \/ Bisect \/ Finish
 
 (* ------------------------------- properties ------------------------------------------- *)
@@ -153,6 +167,10 @@ FailsCleanly == Finished /\ cap \notin env.okset /\ ~(env.plain /\ TxGas \in env
 ProbesWithinCap == \A i \in 1..Len(probes) : probes[i] <= cap \/ (probes[i] = TxGas /\ env.plain)
 (* no gas limit is probed twice: the search makes progress                                 *)
 NoRepeat == \A i, j \in 1..Len(probes) : i < j /\ probes[i] = probes[j] => probes[i] = TxGas /\ env.plain /\ i = 1
+(* the documented algorithm refines the abstract search *)
+InsideStep == pc \in {"optimistic", "bisect"} /\ probes' # probes
+                => (lo < probes'[Len(probes')] /\ probes'[Len(probes')] < hi)
+SearchRefines == [][InsideStep]_vars
 (* hi always succeeds once the cap probe has succeeded                                     *)
 HiSucceeds == pc \in {"optimistic", "bisect"} => hi \in env.okset
 =============================================================================
